@@ -156,7 +156,12 @@ func newEnv(sc *Scenario) (*env, error) {
 }
 
 func (e *env) split(k []byte) {
-	r, peer, _, _ := e.cluster.GetRegionByKey(codec.EncodeBytes(nil, k))
+	// unistore's GetRegionByKey compares with the (memcomparable) region bounds; mocktikv's encodes the key itself
+	lookup := codec.EncodeBytes(nil, k)
+	if e.sc.Backend == "mock" {
+		lookup = k
+	}
+	r, _, _, _ := e.cluster.GetRegionByKey(lookup)
 	if r == nil {
 		return
 	}
@@ -164,8 +169,7 @@ func (e *env) split(k []byte) {
 		return
 	}
 	newID, newPeer := e.cluster.AllocID(), e.cluster.AllocID()
-	_ = peer
-	e.cluster.SplitRaw(r.Id, newID, k, []uint64{newPeer}, newPeer)
+	e.cluster.Split(r.Id, newID, k, []uint64{newPeer}, newPeer)
 }
 
 func (e *env) store(id string) *tikv.KVStore {
@@ -750,9 +754,29 @@ func runProgram(sc *Scenario, e *env, out map[string]interface{}) {
 	out["txns"] = tinfo
 	out["steps"] = steps
 	cA := e.store("c8")
-	pre := map[string]interface{}{}
-	for _, kk := range sc.Keys {
-		pre[kk] = e.mvcc(cA, key(kk))
+	finished := map[uint64]bool{}
+	for _, t := range names {
+		finished[txns[t].txn.StartTS()] = true
+	}
+	// Background work (secondary commits, asynchronous rollbacks) has no observable end: a transient lock
+	// disappears within moments, a leftover lock stays for ever. Poll up to 3 s before declaring a lock left over.
+	var pre map[string]interface{}
+	for attempt := 0; attempt < 100; attempt++ {
+		pre = map[string]interface{}{}
+		left := false
+		for _, kk := range sc.Keys {
+			m := e.mvcc(cA, key(kk))
+			pre[kk] = m
+			if lk, ok := m["lock"].(map[string]interface{}); ok {
+				if st, ok2 := lk["start"].(uint64); ok2 && finished[st] {
+					left = true
+				}
+			}
+		}
+		if !left {
+			break
+		}
+		time.Sleep(30 * time.Millisecond)
 	}
 	out["audit_pre"] = pre
 	tsEnd, _ := cA.CurrentTimestamp(oracle.GlobalTxnScope)
